@@ -34,6 +34,12 @@ NEEDS = {
  "agent2-C16": ("C16", "prover completes the LAST gate instead of the stored pending gate on the second single allocation", "allocate, then multiply / allocate_multiplier, then allocate in the same phase"),
  "agent2-C17": ("C17", "capacity check moved out of verification_scalars into verify only; batch_verify has none", "batch_verify (any size) with capacity below the padded size of a member"),
  "agent2-C18": ("C18", "generator scaling factor u replaced by 1 when there are no second-phase multipliers, on both sides", "n2 = 0 and a gate count that is not a power of two (padding present), plus a recorded artefact"),
+ "agent3-F1": ("C12", "party index narrowed to one byte before it enters the chain label: party j >= 256 gets the generators of party j & 0xff", "party_capacity >= 257 and a look at a party with index >= 256"),
+ "agent3-F2": ("C03", "verifier drops the w*(t_x - a*b) term from the B coefficient when the proof has no folding rounds", "circuit with <= 1 gate and a proof from a false statement whose t_x was rewritten so that relation (b) holds (computed from z, x and the constraint error)"),
+ "agent3-F3": ("C06", "commit() on both sides uses validate_and_append_point and drops the Err: an identity commitment is counted in m but never absorbed", "a commitment that is the identity (value 0, blinding 0)"),
+ "agent3-F4": ("C08", "the lg_n >= 32 guard returns InvalidBitsize and the call site uses a plain ?, reaching the panic arm of From<ProofError> for R1CSError", "decodable proof with |L| >= 32 (all entries valid points)"),
+ "agent3-F5": ("C02", "flattening weights taken from a 256-entry power table with an off-by-one block base: rows 256k and 256k+1 share a weight, on both sides", "statement with >= 257 constraint rows; two violated rows straddling a block boundary with cancelling errors (or any differential reference)"),
+ "agent3-F6": ("C05", "Verifier::commit projects the incoming commitment onto the prime-order subgroup before storing / absorbing it", "curve25519 only: verifier statement whose commitment differs by a small-order point"),
 }
 for d in sorted(glob.glob('/verif/seeded/*/')):
     name=os.path.basename(d.rstrip('/'))
